@@ -18,7 +18,7 @@ import os
 from vlib import common, gostring
 
 PLUGINS = ["gostring"]
-OPS = {"gostring"}
+OPS = {"gostring", "gostringx"}
 
 
 def nontrivial(f, impl, model, spec):
@@ -71,8 +71,12 @@ def run(rep):
         if s2.get("run_rc") != 0:
             raise common.CheckError("stage-2 program failed: rc=%s %s" % (s2.get("run_rc"), s2.get("run_err", "")[-500:]))
         rep.cov["programs"] += 1
-        for ce in s2["compile_errors"][:5]:
+        shown = 0
+        for ce in s2["compile_errors"]:
             opline = op_line(info, ce["ops"][0])
+            if " gostringx " in opline or shown >= 5:   # gostringx: outside the quantifier (unexported fields), correspondence only
+                continue
+            shown += 1
             rep.violation("text returned by derived GoString does not compile (%s): type %s, op %s" % (ce["error"], ce["type"], opline[:300]),
                           {"corpus_seed": rep.seed, "op": opline, "type": ce["type"], "text": ce["text"], "compiler": ce["error"],
                            "types": os.path.join(info["dir"], "prelude.txt")}, True)
@@ -81,7 +85,7 @@ def run(rep):
         return "compile-error-reported-above" if impl == "compile-error" else None
 
     nv = len(rep.violations)
-    common.compare_corpus(rep, info, OPS, nontrivial=nontrivial, oracle=oracle, classify=classify)
+    common.compare_corpus(rep, info, OPS, nontrivial=nontrivial, oracle=oracle, classify=classify, corr_only=("gostringx",))
     probe_same_package_name(rep)
     # add the returned text to the replay files of behavioural violations
     for what, path, found in rep.violations[nv:]:
